@@ -78,6 +78,12 @@ def _is_negative_verdict(c) -> bool:
             if _is_check_result(x) and y in (("ext", "z3.unsat"), ("ext", "z3.unknown")):
                 return True
         return False
+    if is_app(c, "!=") and len(c) == 4:
+        # the verdict is one of sat / unsat / unknown: `!= sat` is `unsat or unknown`
+        a, b = c[2], c[3]
+        return any(_is_check_result(x) and y == ("ext", "z3.sat") for x, y in ((a, b), (b, a)))
+    if is_app(c, "in") and len(c) == 4 and _is_check_result(c[2]) and isinstance(c[3], tuple) and c[3] and c[3][0] in ("tuple", "list"):
+        return bool(c[3][1]) and all(m in (("ext", "z3.unsat"), ("ext", "z3.unknown")) for m in c[3][1])
     if is_app(c) and c[1] in ("Or", "or"):
         return all(_is_negative_verdict(norm(d)) for d in c[2:])
     if is_app(c, "not") and isinstance(c[2], tuple) and "_solve_optimize_incremental" in show(c[2]) and c[2][0] in ("mcall", "call"):
@@ -187,6 +193,7 @@ RULES = [
     r_task_exact,
     task_constraints.r_tc_relation,
     resource_constraints.r_rc_relation,
+    resource_constraints.r_periodic_core,
     resources.r_pairwise,
     resources.r_busy_bind,
     resources.r_work_amount,
